@@ -34,15 +34,16 @@ type Case struct {
 
 type Out struct {
 	Case
-	Inst    string `json:"inst"`
-	Shape   int    `json:"shape"`
-	Ret     any    `json:"ret"`
-	Log     []int  `json:"log"`
-	After   []int  `json:"after"`
-	After2  []int  `json:"after2"`
-	Parent0 []int  `json:"parent0"`
-	Parent1 []int  `json:"parent1"`
-	Panic   string `json:"panic"`
+	Inst    string  `json:"inst"`
+	Shape   int     `json:"shape"`
+	Ret     any     `json:"ret"`
+	Log     []int   `json:"log"`
+	After   []int   `json:"after"`
+	After2  []int   `json:"after2"`
+	AfterSs [][]int `json:"afterss"` // the outer list handed to Concat, as it is after the call
+	Parent0 []int   `json:"parent0"`
+	Parent1 []int   `json:"parent1"`
+	Panic   string  `json:"panic"`
 }
 
 // ---- the function family (same names and meaning as in SliceLib.tla)
@@ -212,6 +213,10 @@ func runCase[T interface {
 		}
 		out.After = decS(c, s)
 		out.After2 = decS(c, s2)
+		out.AfterSs = [][]int{}
+		for _, x := range ss {
+			out.AfterSs = append(out.AfterSs, decS(c, x))
+		}
 		if parent != nil {
 			out.Parent1 = decS(c, parent)
 		}
